@@ -61,6 +61,19 @@ def items(ctx):
         # half of the group in half units (values 0, 0.5, ... 2.5): lower bounds below 1, where a bound that is
         # transformed once too often (a stray sqrt) is no longer a lower bound
         out.append({"q": qs, "cands": cands, "S": rng.choice([1, 2]), "set": st, "history": hist, "variants": variants})
+    # ... and the mirror image: queries LONGER than the candidates with wide or no windows (the envelope limits
+    # on the other side of the length difference)
+    for _ in range(1000 if q else 8000):
+        lq = rng.randint(4, 7)
+        vals = (0, 1, 2, 3, 4, 5)
+        qs = [[rng.choice(vals)] for _ in range(lq)]
+        N = rng.randint(4, 8)
+        cands = [[[rng.choice(vals)] for _ in range(max(1, lq - rng.choice([1, 1, 2, 2, 3])))] for _ in range(N)]
+        st = {"s1": [[0]], "s2": [[0]], "inner": rng.choice(["sq", "eu"]), "w": rng.choice([0, 0, 0, 3, 4, 5]),
+              "pen": 0, "ms": 0, "md": rng.choice([0, 0, 2, 3, 4, 6]), "mld": -1, "psi": [0, 0, 0, 0]}
+        hist = [("kbest", rng.choice([1, 1, 2, -1]))]
+        variants = [{"use_lb": True, "use_c": uc, "as_value": False} for uc in (False, True)]
+        out.append({"q": qs, "cands": cands, "S": rng.choice([1, 2]), "set": st, "history": hist, "variants": variants})
     for k, it in enumerate(out):
         it["id"] = "c14-%d" % k
     return out
